@@ -108,6 +108,9 @@ pub struct SeqCase {
     /// additional parameter sets a flushed image is reopened with (C02)
     #[serde(default)]
     pub reopen_params: Vec<DevParams>,
+    /// known findings whose triggering shape the generator removed from this case
+    #[serde(default)]
+    pub excluded: Vec<String>,
 }
 
 pub fn layer_name(i: usize) -> String {
